@@ -11,7 +11,7 @@ TB == ndJsonDeserialize(IOEnv.TRACE2)
 \* of internal counters and the wait-for snapshot (they legitimately depend on the feature set)
 Mode == IOEnv.EQMODE
 
-Keep(e) == IF Mode = "exact" THEN TRUE ELSE e.e \notin {"Sample"}
+Keep(e) == IF Mode = "exact" THEN TRUE ELSE e.e \notin {"Sample", "Metrics"}
 Proj(e) ==
   IF e.e = "Reset" THEN [e |-> "Reset", run |-> e.run]
   ELSE IF e.e = "Quiescent" /\ Mode # "exact" THEN [e EXCEPT !.wf = <<>>]
